@@ -580,10 +580,14 @@ def gen_refcount(rng, tier, sess):
 # concurrent skiplist: steered schedules, chosen interactively (C13, C14, C15)
 # ------------------------------------------------------------------------------------------------
 
-def gen_skipconc(rng, tier, sess):
+def gen_skipconc(rng, tier, sess, free=False):
+    """free=True: real reclamation (mem=mmfree): deletes are `delf` (node handed to the access barrier and freed, freed
+    memory faults on access).  An `ins k` and a `delf k` of the SAME key never overlap in these runs: that overlap is
+    the open finding C04-D23 (its witness is replayed separately on every run)."""
     n = rng.choice((2, 2, 3, 4))
-    nkeys = rng.choice((1, 2, 3, 5))
-    sess.send('threads %d%s' % (n, rng.choice(('', '', ' mem=go', ' mem=mm'))))
+    nkeys = rng.choice((1, 2, 3, 5)) if not free else rng.choice((2, 3, 5))
+    sess.send('threads %d%s' % (n, ' mem=mmfree' if free else rng.choice(('', '', ' mem=go', ' mem=mm'))))
+    inflight = [None] * n                   # (op, key) of the call in progress on each thread
     busy = [False] * n
     iters = [dict() for _ in range(n)]      # name -> valid?
     pend = [None] * n
@@ -601,6 +605,7 @@ def gen_skipconc(rng, tier, sess):
             busy[t] = True
             return
         busy[t] = False
+        inflight[t] = None
         p = pend[t]
         if p and o.startswith('ret'):
             kind, name = p
@@ -614,12 +619,20 @@ def gen_skipconc(rng, tier, sess):
         nonlocal nit
         r = rng.random()
         k = rng.randrange(nkeys) * 2 + 2
+        if free and r < 0.65:
+            want = 'ins' if r < 0.35 else 'delf'
+            other = 'delf' if want == 'ins' else 'ins'
+            if any(x == (other, k) for x in inflight):
+                r = 0.7                     # would overlap with the other half of D23 on this key: look it up instead
         if r < 0.35:
             pend[t] = ('ins', None)
+            inflight[t] = ('ins', k)
             handle(t, sess.send('start %d ins %d lvl=%d' % (t, k, rng.choice((0, 0, 0, 1, 1, 2, 3, 5)))))
         elif r < 0.65:
             pend[t] = ('del', None)
-            handle(t, sess.send('start %d del %d' % (t, k)))
+            dop = 'delf' if (free and rng.random() < 0.85) else 'del'
+            inflight[t] = (dop, k)
+            handle(t, sess.send('start %d %s %d' % (t, dop, k)))
         elif r < 0.72:
             pend[t] = ('look', None)
             handle(t, sess.send('start %d look %d' % (t, k)))
@@ -1107,6 +1120,10 @@ EXHAUSTIVE = {
         (['init writers=2 readers=0 cmp=plain'], [['put 5 0', 'del 5'], ['put 5 0']], ['snap', 'state']),
     ],
 }
+
+
+def gen_skipconc_free(rng, tier, sess):
+    return gen_skipconc(rng, tier, sess, free=True)
 
 
 def gen_skipconc_scan(rng, tier, sess):
